@@ -510,6 +510,11 @@ impl Session {
         self.mtu = mtu;
         self.window_size = window_size;
         self.handshake_pending = !self.initiator;
+        // A handshake always starts a new session: nothing of a previous one on this
+        // connection (segments in flight, pending acknowledgements, a partially reassembled
+        // message) may survive it
+        self.recv_window.reset();
+        self.send_window.reset();
         self.recv_window.level = window_size;
         self.send_window.window_size = window_size;
         self.send_window.level = window_size;
